@@ -1,6 +1,7 @@
 // C18: drives the real services/cache/standard.Service through histories of block events, head
 // events, lookups (hits, misses, failing fetches), groups of OVERLAPPING lookups (goroutines inside
-// the synctest bubble, the header provider answering after a fake delay) and cleaning runs, and
+// the synctest bubble, the header provider answering after a fake delay), cleaning runs and storms
+// (storm_test.go: real goroutines writing and reading while the cleaning job runs), and
 // prints each history with the observed outputs as a Gallina case for Check.C18.
 package c18
 
@@ -504,7 +505,7 @@ func term(t *testing.T, id uint64, h History, outs []string, final [][2]uint64) 
 
 func TestC18(t *testing.T) {
 	col := NewCollector("C18", "Check.C18",
-		"histories of 5-60 ops (block events, head events, lookups with scripted fetch outcome, groups of 2-6 overlapping lookups, cleans with the clock anywhere in its epoch) over 1-8 roots, and long chains (one root or more per slot over more than 64 epochs, the map outgrowing 64*spe entries, then lookups of the window's oldest roots with the node failing); non-trivial = contains both a successful miss and a hit (sequential lookups); distinct by full history text")
+		"histories of 5-60 ops (block events, head events, lookups with scripted fetch outcome, groups of 2-6 overlapping lookups, cleans with the clock anywhere in its epoch) over 1-8 roots, and long chains (one root or more per slot over more than 64 epochs, the map outgrowing 64*spe entries, then lookups of the window's oldest roots with the node failing), and storms (2-4 real goroutines delivering block events, calling SetBlockRootToSlot and looking roots up while the cleaning job runs 8-45 times on a map of 20-750 entries); non-trivial = contains both a successful miss and a hit (sequential lookups); distinct by full history text")
 	// the long-chain histories cost the checker seconds each: smaller shards, checked in parallel
 	col.ShardSize = 200
 	n := EnvInt("VERIF_N", 1000)
